@@ -192,7 +192,7 @@ void do_entry(fsm_t* self, event_t incomingEvent, fsm_t* fsm)
 __CPROVER_requires(REGIONS_OK && __CPROVER_is_fresh(self, sizeof(*self)) && __CPROVER_is_fresh(g_hist_answer, sizeof(int) * NR_CAP))
 __CPROVER_requires(g_dstep == 0 && !g_exc && EV_EQ_U(incomingEvent, g_evt) && !self->m_event_processing)
 __CPROVER_assigns(g_dstep, g_exc, self->m_event_processing, __CPROVER_object_whole(self->m_states))
-__CPROVER_ensures(!g_exc ==> g_dstep == 4)                                       /*@ob C02,C05.entry-then-deferred-then-queued-events */
+__CPROVER_ensures(!g_exc ==> g_dstep == 4)                                       /*@ob C02,C05,C04,C10.entry-then-deferred-then-queued-events */
 __CPROVER_ensures(g_no_msg_queue || !self->m_event_processing)                   /*@ob C04,C12.machine-not-left-busy */
 ;
 void do_exit(fsm_t* self, event_t incomingEvent, fsm_t* fsm)
